@@ -277,10 +277,10 @@ func switchThreading(v *VM) *val.Val {
 			v.Push(vl)
 
 		case OP_OBJ_LOAD:
-			idx, w := v.readMediumInt(v.pc)
+			name, w := v.readConst(v.pc)
 			v.pc += w
-			o := v.Pop().Obj()
-			v.Push(o.V[idx])
+			vl, _ := v.Pop().Obj().Get(name.(string))
+			v.Push(vl)
 
 		// -----------------------------------------------
 		case OP_LEN_STR:
